@@ -36,14 +36,15 @@ JVM_ENV = {'JDK_JAVA_OPTIONS': '-XX:ParallelGCThreads=2 -XX:CICompilerCount=2'}
 DEF = dict(Mode='"cli"', Emit='FALSE', MaxMain=2, MaxInc=0, MainSel=[1, 25],
            IncSel=[], TgtSel=[1, 2], SampleMod=1, SampleRem=0,
            ListFirstWins='FALSE', NegNoop='FALSE', SpliceLeaks='FALSE',
-           NegSticky='FALSE', GenSel=[], PreSel=[0])
+           NegSticky='FALSE', NoneUnset='FALSE', ValSel=[], ShapeSel=[1],
+           GenSel=[], PreSel=[0])
 
 CLI_ALL = list(range(1, 46))
 INVS = {'cli': ['FirstWins', 'Accumulates', 'IncludeInPlace',
                 'IncludeRestores'],
         'srv': ['NoUnsafeExpansion']}
 DEFECTS = {1: 'second_pass_restarts', 2: 'expansion_per_file',
-           4: 'include_glob_unsorted'}
+           4: 'include_glob_unsorted', 8: 'chained_options_expand_twice'}
 
 
 def write_cfg(name, invs, **kw):
@@ -112,6 +113,15 @@ def plan(ctx):
         ('gencli', 'cli', dict(GenSel=[1, 2, 3], PreSel=[0, 29, 41],
                                TgtSel=[1, 2, 3, 4], **smp(2 if q else 1))),
         ('gensrv', 'srv', dict(GenSel=[4], PreSel=[0, 52])),
+        # value classes: the same option twice (every ordered pair of: ordinary
+        # value, "none" in several spellings, quoted empty, the default,
+        # booleans in every spelling, numbers, +/-/^ lists, list values) in two
+        # matching blocks / across Include / two files / chained options
+        ('valcli', 'cli', dict(ValSel=list(range(1, 26)),
+                               ShapeSel=[1, 2, 3, 4, 5, 6], TgtSel=[1],
+                               **smp(2 if q else 1))),
+        ('valsrv', 'srv', dict(ValSel=list(range(26, 34)),
+                               ShapeSel=[1, 2, 3, 4], **smp(4 if q else 1))),
         ('srv3', 'srv', dict(MaxMain=3, MaxInc=1,
                              MainSel=[7, 43, 46, 47, 48, 49, 50, 51, 52, 53],
                              IncSel=[46, 48, 50, 51], **smp(12 if q else 1))),
@@ -134,6 +144,8 @@ SENSITIVITY = [
                              TgtSel=[1, 3], NegNoop='TRUE'), 'FirstWins'),
     ('sticky', 'cli', dict(GenSel=[1], PreSel=[0], TgtSel=[1, 2, 3, 4],
                            NegSticky='TRUE'), 'FirstWins'),
+    ('noneunset', 'cli', dict(ValSel=[1, 2, 19], ShapeSel=[1], TgtSel=[1],
+                              NoneUnset='TRUE'), 'FirstWins'),
     ('splice', 'cli', dict(MaxMain=3, MaxInc=2, MainSel=[43, 25, 26],
                            IncSel=[2, 25, 5], SpliceLeaks='TRUE'),
      'IncludeRestores'),
@@ -162,7 +174,7 @@ ECHO_CASES = [
 
 
 def bits(n):
-    return [DEFECTS[b] for b in (1, 2, 4) if n & b]
+    return [DEFECTS[b] for b in (1, 2, 4, 8) if n & b]
 
 
 class Replayer:
@@ -202,17 +214,21 @@ class Replayer:
             if fb & 4 and not self.glob_rev():
                 continue
             if cd.norm(cd.pred_out(pred)) == obs:
-                if best is None or bin(fb).count('1') < bin(best).count('1'):
+                # fewest departures; for chained options prefer the chain one
+                key = (bin(fb).count('1'), 0 if fb & 8 else 1)
+                if best is None or key < (bin(best).count('1'),
+                                          0 if best & 8 else 1):
                     best = fb
         return best
 
     def cli(self, rec):
-        _, main, a, b, ti, p1, pr, alts1, alts = rec
+        _, main, a, b, ti, p1, pr, alts1, alts, x = rec
         cd, menu, world = self.cd, self.menu, self.world
         self.n += 1
-        world.write(menu, main, a, b)
+        world.write(menu, main, a, b, x)
         target = menu.targets[ti - 1]
         prog = (main, a, b)
+        names = menu.names(prog)
         first = cd.cli_first(world, target)
         exp1, exp = cd.norm(cd.pred_out(p1)), cd.norm(cd.pred_out(pr))
         two_pass = p1 != pr or target[2] == 'canon'
@@ -229,7 +245,16 @@ class Replayer:
             return
         checks = [('first pass', cd.norm(first), exp1, alts1)]
         whole = None
-        if self.n % 6 == 0 or two_pass or alts:
+        if x == 'chain':
+            # deriving an options object must not change its parent
+            changed = cd.chain_parent_changed(world, target)
+            if changed:
+                self.defect(
+                    ['chained_options_share_lists'],
+                    f'{world.texts()} for {target}: building the second '
+                    f'options object changed what the first one resolves '
+                    f'to: {changed[0]} -> {changed[1]}', replay)
+        if (self.n % 6 == 0 or two_pass or alts) and 'ProxyJump' not in names:
             # the whole resolution, by the library's own connect() code
             whole = self.connector.resolve(world, target)
             checks.append(('resolution', cd.norm(whole)
@@ -253,7 +278,7 @@ class Replayer:
             if cd.ssh_applicable(menu, prog, target) and what != 'first pass':
                 so = cd.ssh_G(world, target, 'veto')
                 if isinstance(so, list) and not cd.ssh_agrees(
-                        so, want, want[5] != ['-']):
+                        so, want, want[5] != ['-'], names):
                     self.ctx.divergence(
                         f'cli: specification and ssh -G disagree on '
                         f'{world.texts()} {target}: {want} vs {so}')
@@ -266,15 +291,15 @@ class Replayer:
             break
         else:
             if cd.ssh_applicable(menu, prog, target):
-                self.second.append((main, a, b, ti, exp))
+                self.second.append((main, a, b, ti, exp, x))
 
     def srv(self, rec):
-        _, main, a, b, ui, unsafe, pr, alts, rawakf = rec
+        _, main, a, b, ui, unsafe, pr, alts, rawakf, x, typed = rec
         cd, menu, world = self.cd, self.menu, self.world
         self.n += 1
-        world.write(menu, main, a, b)
+        world.write(menu, main, a, b, x)
         user = menu.srv_users[ui - 1]
-        obs = cd.srv_load(world, user)
+        obs, obs_typed = cd.srv_load(world, user)
         want = [cd.val(x, world) for x in pr] or ['-']
         if any('@ERR@' in w for w in want):
             want = ['config-error']
@@ -289,8 +314,8 @@ class Replayer:
         # ---- the property, on what was observed ----
         templates = [cd.val(x, world) for x in rawakf]
         raw = [t for t in templates if '%u' in t.replace('%%', '')]
-        substituted = obs not in (['reject'], ['-'], ['config-error']) and \
-            obs[0] != 'exc'
+        substituted = obs not in (['reject'], ['-'], ['config-error'],
+                                  ['@EMPTY@']) and obs[0] != 'exc'
         if unsafe and substituted and raw and obs != templates:
             self.violation(
                 {'module': 'Config', 'unsafe_user': user},
@@ -315,6 +340,14 @@ class Replayer:
                     f'{user!r} opened {bad or seen}', replay)
                 return
         # ---- conformance with the model ----
+        want_typed = cd.pred_typed(typed)
+        if obs_typed is not None and not unsafe and obs_typed != want_typed:
+            self.violation(
+                {'module': 'Config', 'files': world.texts(), 'user': user,
+                 'what': 'server option values'},
+                f'server config {world.texts()} user {user!r}: first '
+                f'obtained values are {want_typed}, asyncssh gives '
+                f'{obs_typed}', replay)
         if obs != want:
             fb = None
             for f2, pred in alts:
@@ -351,20 +384,21 @@ def second_opinion(ctx, cd, menu, cases, root, limit):
     agree = differ = failed = 0
 
     def one(i):
-        main, a, b, ti, exp = todo[i]
+        main, a, b, ti, exp, x = todo[i]
         w = cd.World(os.path.join(root, f'so{i % 8}_{i}'))
         try:
-            w.write(menu, main, a, b)
+            w.write(menu, main, a, b, x)
             return (cd.ssh_G(w, menu.targets[ti - 1], str(i)), exp,
-                    w.texts(), menu.targets[ti - 1])
+                    w.texts(), menu.targets[ti - 1],
+                    menu.names((main, a, b)))
         finally:
             shutil.rmtree(w.root, ignore_errors=True)
     with cf.ThreadPoolExecutor(max_workers=6) as ex:
-        for so, exp, texts, target in ex.map(one, range(len(todo))):
+        for so, exp, texts, target, names in ex.map(one, range(len(todo))):
             if not isinstance(so, list):
                 failed += 1
                 continue
-            if cd.ssh_agrees(so, exp, exp[5] != ['-']):
+            if cd.ssh_agrees(so, exp, exp[5] != ['-'], names):
                 agree += 1
             else:
                 differ += 1
